@@ -387,3 +387,22 @@ _MORE7 = {
 }
 for _k, _v in _MORE7.items():
     CONFIG[_k]["rule"] += _v
+
+# Extensions that came out of the eighth round of seeded changes.
+_MORE8 = {
+    "C01": " Every indicator gets one input of 2^15+40 values per run; rare long inputs reach 2^16.",
+    "C02": " Every indicator gets one input of 2^16+8 values per run (length law only beyond 10000 values).",
+    "C03": " Extra strategy entry ApoFastAboveSlow (termination only).",
+    "C04": " TripleMovingAverageCrossover: only the slow period has to be the largest.",
+    "C05": " compound/slow-feed: once per run And / Or / Majority groups are fed by a producer that pauses 21 s (61 s thorough) at snapshot 10.",
+    "C06": " A threshold pair is (0, 0) in one draw in twelve.",
+    "C07": " MacdRsi: in three cases out of five the instance computes once before its exported sub-strategy fields are replaced.",
+    "C08": " Outcome/slow-reader: once per run the reader of the outcome stream of ComputeWithOutcome pauses 21 s (61 s thorough) after the first entry.",
+    "C10": " Subject memory/factory: an in-memory repository obtained from asset.NewRepository per case.",
+    "C11": " JSON element type asset.TiingoEndOfDay with extreme int64 volumes. (slow reader: 21 s / 61 s.)",
+    "C15": " Every claimed indicator gets one input of 2^16+24 bars per run.",
+    "C16": " The scalar parameter of Count / Shift / IncrementBy ... is a non-dyadic fraction for the float types in half of the cases.",
+    "C19": " The stand-in Tiingo server compresses the body (gzip) when asked, in two cases out of three. (slow body: 21 s / 61 s.)",
+}
+for _k, _v in _MORE8.items():
+    CONFIG[_k]["rule"] += _v
